@@ -322,6 +322,9 @@ RULE += _R6["C30"]
 from vmc.tables import _ROUND7 as _R7  # noqa: E402
 
 RULE += _R7["C30"]
+from vmc.tables import _ROUND8 as _R8  # noqa: E402
+
+RULE += _R8["C30"]
 
 
 
